@@ -64,6 +64,10 @@ type c14Case struct {
 	XZero   bool    `json:"x_zero,omitempty"` // the point (0, sqrt(b)) (public key only)
 	PubX    rc.Hex  `json:"pub_x,omitempty"`  // public key only: the point with this x coordinate (and the odd / even y)
 	PubYOdd bool    `json:"pub_y_odd,omitempty"`
+	// InMemX / InMemY: a COSE_Key assembled with NewKeyEC2 from coordinates of these few octets (as big.Int.Bytes()
+	// leaves very small numbers): only the serialised size of the coordinates is judged
+	InMemX rc.Hex `json:"in_mem_x,omitempty"`
+	InMemY rc.Hex `json:"in_mem_y,omitempty"`
 	Kid     rc.Hex  `json:"kid,omitempty"`
 	Ops     []int64 `json:"ops,omitempty"`
 	HasOps  bool    `json:"has_ops,omitempty"`
@@ -146,6 +150,34 @@ var c14PriorKeys = sync.OnceValue(func() [][]byte {
 // x and y are serialised at full field size, and the derived signer/verifier
 // interoperate (also with the reference verifier).
 func checkC14(c c14Case) error {
+	if len(c.InMemX) > 0 || len(c.InMemY) > 0 {
+		curve := curveOf(c.Curve)
+		size := (curve.Params().BitSize + 7) / 8
+		alg := map[int]cose.Algorithm{256: cose.AlgorithmES256, 384: cose.AlgorithmES384, 521: cose.AlgorithmES512}[c.Curve]
+		k, err := cose.NewKeyEC2(alg, append([]byte{}, c.InMemX...), append([]byte{}, c.InMemY...), nil)
+		if err != nil {
+			stats.Class("in-memory-tiny-coordinates-refused")
+			return nil
+		}
+		b, err := k.MarshalCBOR()
+		if err != nil {
+			stats.Class("in-memory-tiny-coordinates-refused")
+			return nil
+		}
+		nt := false
+		if err := c14CheckCoords(b, c.Curve, size, &nt); err != nil {
+			return err
+		}
+		var back cose.Key
+		if err := back.UnmarshalCBOR(b); err != nil {
+			return finding("own-key-rejected", "Key.UnmarshalCBOR rejects Key.MarshalCBOR output: %v\n%x", err, b)
+		}
+		if re, err := back.MarshalCBOR(); err != nil || !bytes.Equal(re, b) {
+			return finding("key-reencode", "decoded key re-encodes differently (err=%v)\n in=%x\nout=%x", err, b, re)
+		}
+		stats.Class("in-memory-tiny-coordinates")
+		return nil
+	}
 	var priv crypto.Signer
 	var pub crypto.PublicKey
 	size := 32
@@ -526,6 +558,14 @@ func TestC14_Table(t *testing.T) {
 		n++
 		stats.Eval()
 		judge(t, "c14", c14Case{Curve: cv, XZero: true, Message: rc.Hex{}}, checkC14)
+	}
+	// keys assembled in memory from coordinates of one or two octets
+	for _, cv := range []int{256, 384, 521} {
+		for _, xy := range [][2][]byte{{{5}, {7}}, {{1, 2}, {3}}, {{9}, {1, 0}}, {{0xff}, {0xff, 0xff, 0xff}}, {bytes.Repeat([]byte{1}, 31), {2}}} {
+			n++
+			stats.Eval()
+			judge(t, "c14", c14Case{Curve: cv, InMemX: xy[0], InMemY: xy[1], Message: rc.Hex{}}, checkC14)
+		}
 	}
 	// private scalars at the ends of their range, and Ed25519 seeds that are all zero / all ones / a counter
 	for _, cv := range []int{256, 384, 521} {
